@@ -132,24 +132,44 @@ def ring_project(ad: RingAdapter):
 
 
 # ---------------------------------------------------------------- multi-task
+SPARSE_IDS = [8, 0, 9]  # ids that collide modulo 8 (hash-table order of a small-int set depends on insertion order)
+
+
 class MTAdapter:
-    def __init__(self, cls_name, profile, n, k):
+    """taskmap: the model's task j is the real task taskmap[j] of a buffer with max(taskmap)+1 tasks (sparse, unordered
+    ids such as [8, 0, 9] of a ten-task buffer: most tasks never receive data, tasks become active in non-ascending order)"""
+
+    def __init__(self, cls_name, profile, n, k, taskmap=None):
         from rl_blox.blox.replay_buffer import MultiTaskReplayBuffer
 
         self.inner = RingAdapter(cls_name, profile, n)
         self.kind = cls_name
         self.profile = profile
         self.k = k
-        self.mt = MultiTaskReplayBuffer(self.inner.buf, k)
+        self.taskmap = list(taskmap) if taskmap else list(range(k))
+        assert len(self.taskmap) == k and len(set(self.taskmap)) == k
+        self.n_real = max(self.taskmap) + 1
+        self.mt = MultiTaskReplayBuffer(self.inner.buf, self.n_real)
+        if self.taskmap[0] != 0:  # the model starts with task 0 selected
+            self.mt.select_task(self.taskmap[0])
         self.cnt = 0
         self.hist_len = [0] * k
+
+    def real(self, j):
+        """real task id of the model's task j (ids outside the model's range stay outside the real range)"""
+        if 0 <= j < self.k:
+            return self.taskmap[j]
+        return j if j < 0 else self.n_real + (j - self.k)
+
+    def model(self, t):
+        return self.taskmap.index(int(t)) if int(t) in self.taskmap else f"unmapped:{int(t)}"
 
 
 def mt_step(ad: MTAdapter, op, args, exp, pre, post):
     if op == "Select":
         k = args[0]
         try:
-            ad.mt.select_task(k)
+            ad.mt.select_task(ad.real(k))
             res = "ok"
         except ValueError:
             res = "ValueError"
@@ -158,11 +178,11 @@ def mt_step(ad: MTAdapter, op, args, exp, pre, post):
     elif op == "Add":
         ad.mt.add_sample(**ad.profile.encode(args[0]))
         ad.cnt = args[0]
-        ad.hist_len[ad.mt.selected_task] += 1
+        ad.hist_len[ad.model(ad.mt.selected_task)] += 1
     elif op == "Sample":
         t, idx, mlen, active = args["task"], args["idx"], args["len"], args["active"]
         rng = bufkit.StubRng()
-        rng.push("choice", t)
+        rng.push("choice", ad.real(t))
         b = len(idx)
         if ad.kind == "ReplayBuffer":
             rng.push("integers", idx)
@@ -179,7 +199,7 @@ def mt_step(ad: MTAdapter, op, args, exp, pre, post):
             rng.push("uniform", lambda lo, hi, size: np.asarray(idx) + 0.5)
             batch, _ = ad.mt.sample_batch(b, rng)
         offered = sorted(rng.calls[0][1])
-        if offered != sorted(active):
+        if offered != sorted(ad.real(x) for x in active):
             raise Mismatch(f"task drawn from {offered}, model's active set is {sorted(active)}")
         got = [ad.profile.decode_row(r) for r in bufkit.batch_rows(batch, ad.profile)]
         if got != list(exp):
@@ -193,13 +213,19 @@ def mt_step(ad: MTAdapter, op, args, exp, pre, post):
 
 def mt_project(ad: MTAdapter):
     bufs = {}
+    if len(ad.mt.buffers) != ad.n_real:
+        raise Mismatch(f"{len(ad.mt.buffers)} per-task buffers for {ad.n_real} tasks")
     for t, b in enumerate(ad.mt.buffers):
         store, ins, ln = bufkit.project_ring(b, ad.profile)
-        bufs[str(t)] = {"store": store, "ins": ins, "len": ln}
+        if t in ad.taskmap:
+            bufs[str(ad.taskmap.index(t))] = {"store": store, "ins": ins, "len": ln}
+        elif ln != 0 or ins != 0:
+            raise Mismatch(f"task {t} was never selected but holds {ln} transitions")
+    bufs = {str(j): bufs[str(j)] for j in range(ad.k)}
     return {
         "bufs": bufs,
-        "sel": int(ad.mt.selected_task),
-        "active": sorted(int(x) for x in ad.mt.active_buffers),
+        "sel": ad.model(ad.mt.selected_task),
+        "active": sorted((ad.model(x) for x in ad.mt.active_buffers), key=str),
         "lens": {str(t): ad.hist_len[t] for t in range(ad.k)},
         "cnt": ad.cnt,
     }
@@ -277,15 +303,17 @@ def run(rep):
         root = G.roots()[0]
         for cls in _classes():
             for prof in bufkit.profiles()[:2] if quick else bufkit.profiles():
-                res = graph.cover(G, root, lambda: MTAdapter(cls, prof, n, k), mt_step, mt_project)
-                edges_total += res["edges_tested"]
-                rep.traces += res["edges_tested"]
-                for v in res["violations"]:
-                    rep.violation(
-                        f"MultiTask[{cls}]:{v['path'][-1]['op']}:{v['code']}",
-                        f"MultiTaskReplayBuffer of {cls} (K={k}, N={n}): {v['what']}",
-                        {"class": cls, "K": k, "N": n, "profile": prof.name, "path": v["path"], "detail": v["detail"]},
-                    )
+                # the same graph on dense ids 0..K-1 and (default profile) on sparse, unordered ids of a ten-task buffer
+                for tm in (None, SPARSE_IDS[:k]) if prof.name == "default" else (None,):
+                    res = graph.cover(G, root, lambda: MTAdapter(cls, prof, n, k, tm), mt_step, mt_project)
+                    edges_total += res["edges_tested"]
+                    rep.traces += res["edges_tested"]
+                    for v in res["violations"]:
+                        rep.violation(
+                            f"MultiTask[{cls}]:{v['path'][-1]['op']}:{v['code']}",
+                            f"MultiTaskReplayBuffer of {cls} (K={k}, N={n}{', task ids ' + str(tm) if tm else ''}): {v['what']}",
+                            {"class": cls, "K": k, "N": n, "profile": prof.name, "taskmap": tm, "path": v["path"], "detail": v["detail"]},
+                        )
         nontrivial += sum(1 for kk, es in G.out.items() for e in es if G.state[kk]["cnt"] > 0)
         rep.sample({"multitask": g.emitted[len(g.emitted) // 2]})
     c = dict(K=2, N=2, MaxAdds=3, MaxBatch=1, EMIT=False)
@@ -321,7 +349,7 @@ def replay(path, rep):
     d = json.load(open(path))["replay"]
     prof = {p.name: p for p in bufkit.profiles()}[d.get("profile", "default")]
     if "K" in d:
-        ad = MTAdapter(d["class"], prof, d["N"], d["K"])
+        ad = MTAdapter(d["class"], prof, d["N"], d["K"], d.get("taskmap"))
         step, proj = mt_step, mt_project
     else:
         ad = RingAdapter(d["class"], prof, d["N"])
